@@ -10,6 +10,34 @@ NOTE = ("Trusted: Coq 8.16.1 kernel + vm_compute (no native_compute, no axioms: 
 
 # id -> (level text, technique, design ref, extra note)
 CLAIMED = {
+    "C01": ("Theorems (closed, all histories, ALL nibble paths incl. empty key / prefixes / extensions / mid-path divergence): the tree-level "
+            "algorithms implement the map (C01_map, C01_exists, one-step laws). The database-level machine (Hexary/D.v: db, refcounts, "
+            "batches) is tied to /repo and to the tree level by differential runs evaluated in Coq; the D->T write refinement is not yet "
+            "proved, so the full statement C01_D is partial (stated in Properties/C01.v).",
+            "Coq proof (nested induction on the trie; fold over histories) + vm_compute correspondence of the D-level state machine", "5/C01", ""),
+    "C02": ("Theorems (closed, every history, every hash function): canonical-shape invariant, canonical tree unique for its contents, "
+            "history independence of the root, blank root for the empty mapping, and trun ops = Yellow-Paper construction yp_tree of the "
+            "contents, hence root = yp_root. External anchors: ethereum/tests vectors evaluated with the Gallina Keccak-256. Database-level "
+            "link by correspondence: impl root = troot keccak256 (T run) = yp_root keccak256 (mapping) at checkpoints, evaluated in Coq.",
+            "Coq proof (invariant + uniqueness + specification equality) + in-Coq evaluation of the Yellow-Paper root for the oracle", "5/C02", ""),
+    "C11": ("Theorems (closed): sorted prefix-free invariant of every reachable fog, explore = set replacement, exact rejection conditions, "
+            "commutation of independent explorations, mark_all_complete = repeated explore, is_complete, serialize round trip, full "
+            "specifications of nearest_unknown / nearest_right incl. when each exception is raised. Model = pure functions; receiver "
+            "immutability observed on the implementation.",
+            "Coq proof over the sorted-list model + vm_compute correspondence + independent set-based oracle", "5/C11", ""),
+    "C14": ("Theorems for the real Keccak-256 model under an explicit, executable no-collision premise on the bodies a history writes: "
+            "root = Merkle root of the full depth-8*key_size tree of last-written values for every history, key size 1..32 and default; "
+            "history independence; cleared = initial; get/exists/branch/calc_root/from_db; returned path hashes; merkle_sparse = merkle.",
+            "Coq proof (representation invariant reprS, induction over histories) + vm_compute correspondence + in-Coq merkle_sparse oracle", "5/C14", ""),
+    "C15": ("Theorems (same premises as C14): a proof created from the tree and fed every update (own key, other keys differing at any bit, "
+            "deletes, truncated lists longer than the first differing bit) stays equal to the tree's value/branch/root; shorter lists are "
+            "rejected with ValidationError.",
+            "Coq proof (in_sync invariant over update streams) + vm_compute correspondence", "5/C15", ""),
+    "C16": ("Theorems (closed, unbounded): encode_nibbles = Yellow-Paper HP, decode inverse, injectivity, re-encoding of well-formed HP "
+            "strings, bytes<->nibbles and bytes<->bits inverses, key-path packing round trip for every bit string, binary node "
+            "encode/parse round trips, exact InvalidNode conditions, hexary node classification and key extraction. Correspondence is "
+            "exhaustive up to a bound and random beyond, incl. a malformed stream; also Keccak-256 and RLP against eth_hash / rlp.",
+            "Coq proof + exhaustive/random vm_compute correspondence", "5/C16", ""),
     "C17": ("Machine-checked theorems over the ScratchDB state-machine model for all wrapped stores, all operation lists, all keys, "
             "both do_deletes values and abort at any position (C17_no_write_during, C17_read, C17_contains, C17_commit, C17_abort); "
             "model tied to trie/utils/db.py by differential runs with an independent last-action oracle.",
